@@ -413,6 +413,7 @@ def nontrivial(snap, kinds):
 
 
 NAME = "Hypergraph"
+CORPUS = "HG"    # shared corpus directory corpus/HG/*.json (always run first)
 factory = xgi.Hypergraph
 
 
